@@ -177,12 +177,12 @@ std::unique_ptr<NodeResult> ArithmeticOperationNode::evaluate(PSC::Context &ctx)
 
         const PSC::EnumTypeDefinition &definition = enumVal.getDefinition(ctx);
         std::size_t enumSize = definition.values.size();
-        res %= enumSize;
-        if (res < 0) res += enumSize;
+        res %= (PSC::int_t) enumSize;
+        if (res < 0) res += (PSC::int_t) enumSize;
 
         std::unique_ptr<PSC::Enum> resEnum = std::make_unique<PSC::Enum>(definition.name);
         resEnum->idx = res;
-        return std::make_unique<NodeResult>(std::move(resEnum), PSC::DataType::ENUM);
+        return std::make_unique<NodeResult>(std::move(resEnum), PSC::DataType(PSC::DataType::ENUM, &definition.name));
     }
 
     if ((leftRes->type != PSC::DataType::INTEGER && leftRes->type != PSC::DataType::REAL)
